@@ -23,8 +23,74 @@
                    answer, and the answer must be the old manifest number m0 or the new one.
      KLife exists steps : OpenFile / Lock / Unlock / Close / guarded methods on one directory: error classes. *)
 From GL Require Import Base.Bytes Store.Lifecycle Store.FileStorage.
+From GL Require Import Store.StorContract Store.MemStorage Store.FileStorageSeq.
 From Coq Require Import String List NArith ZArith Bool.
 Import ListNotations.
+
+(* ---- the storages as storage.Storage (Store/StorContract.v, MemStorage.v, FileStorageSeq.v): one generated call sequence
+   run on the REAL storage.NewMemStorage() (impl 0), on storage.OpenFile in a temporary directory holding [init]
+   (impl 1) and on the checker's vstor (impl 2); every result must be the model's.
+     KStor impl init steps : steps = (call, observed result); handles and lockers are named by creation index. *)
+Inductive ysop :=
+| YLock | YUnlock (k : nat) | YSetMeta (ty : N) (num : Z) | YGetMeta | YList (mask : N)
+| YOpen (ty : N) (num : Z) | YCreate (ty : N) (num : Z) | YRemove (ty : N) (num : Z)
+| YRename (ty : N) (num : Z) (ty2 : N) (num2 : Z) | YClose
+| YWrite (h : nat) (d : string) | YSync (h : nat) | YReadAll (h : nat) | YHClose (h : nat).
+
+Inductive ysres :=
+| YROk | YRErr (code : N) | YRFd (ty : N) (num : Z) | YRList (l : list (N * Z)) | YRData (d : string)
+| YRLockId (k : nat) | YRHandle (h : nat).
+
+Definition sop_of (o : ysop) : sop :=
+  match o with
+  | YLock => SLock | YUnlock k => SUnlock k | YSetMeta t n => SSetMeta (XFD t n) | YGetMeta => SGetMeta
+  | YList m => SList m | YOpen t n => SOpen (XFD t n) | YCreate t n => SCreate (XFD t n)
+  | YRemove t n => SRemove (XFD t n) | YRename t n t2 n2 => SRename (XFD t n) (XFD t2 n2) | YClose => SClose
+  | YWrite h d => HWrite h (unhex d) | YSync h => HSync h | YReadAll h => HReadAll h | YHClose h => HClose h
+  end.
+
+Fixpoint xfds_eqb (a : list xfd) (b : list (N * Z)) : bool :=
+  match a, b with
+  | [], [] => true
+  | x :: a', (t, n) :: b' => xfd_eqb x (XFD t n) && xfds_eqb a' b'
+  | _, _ => false
+  end.
+
+Definition sres_eqb (r : sres) (x : ysres) : bool :=
+  match r, x with
+  | RUnspec, _ => true
+  | ROk, YROk => true
+  | RErr e, YRErr c => (serrc_code e =? c)%N
+  | RFd f, YRFd t n => xfd_eqb f (XFD t n)
+  | RList l, YRList l' => xfds_eqb l l'
+  | RData d, YRData d' => beq d (unhex d')
+  | RLockId k, YRLockId k' => Nat.eqb k k'
+  | RHandle h, YRHandle h' => Nat.eqb h h'
+  | _, _ => false
+  end.
+
+Fixpoint run_steps {S} (step : S -> sop -> S * sres) (s : S) (l : list (ysop * ysres)) : bool :=
+  match l with
+  | [] => true
+  | (o, x) :: l' => let '(s1, r) := step s (sop_of o) in sres_eqb r x && run_steps step s1 l'
+  end.
+
+(* the directory found by OpenFile: CURRENT-family files, names fsGenName produces, everything else *)
+Fixpoint q_init (l : list (bytes * bytes)) (s : qst) : qst :=
+  match l with
+  | [] => s
+  | (n, c) :: l' =>
+      let i := List.length (q_inos s) in
+      let s1 :=
+        if is_cur_name n then QS (q_dir s) (q_other s) (q_inos s) (q_hs s) (q_cur s ++ [(n, c)]) false None 0
+        else match parse_name n with
+             | Some fd => if beq (gen_name fd) n && (0 <=? fd_num fd)%Z
+                          then QS (q_dir s ++ [(xfd_of fd, i)]) (q_other s) (q_inos s ++ [c]) (q_hs s) (q_cur s) false None 0
+                          else QS (q_dir s) (q_other s ++ [(n, i)]) (q_inos s ++ [c]) (q_hs s) (q_cur s) false None 0
+             | None => QS (q_dir s) (q_other s ++ [(n, i)]) (q_inos s ++ [c]) (q_hs s) (q_cur s) false None 0
+             end in
+      q_init l' s1
+  end.
 
 Inductive kstep := KS (c : call) (obs : N) (mut : bool).
 
@@ -39,7 +105,8 @@ Inductive c18case :=
 | KOps (kind : N) (pre : list (string * string)) (ty : N) (num : Z) (ops : list kfsop)
 | KCrash (kind : N) (pre : list (string * string)) (m0 : Z) (ty : N) (num : Z) (k : N) (mask : list bool) (sel : list (N * N))
          (img : list (string * string)) (res rty : N) (rnum : Z)
-| KLife (dirx : bool) (steps : list (fcall * N)).
+| KLife (dirx : bool) (steps : list (fcall * N))
+| KStor (impl : N) (init : list (string * string)) (steps : list (ysop * ysres)).
 
 Definition target (s : state) (c : call) : nat :=
   match c with
@@ -153,6 +220,10 @@ Definition run_case (c : c18case) : bool :=
           (res =? 0)%N && (rty =? 1)%N && ((rnum =? m0)%Z || (rnum =? num)%Z)
       end
   | KLife dirx steps => run_life (PR dirx OsFree []) steps
+  | KStor impl init steps =>
+      if (impl =? 0)%N then run_steps (mstep true) m_empty steps
+      else if (impl =? 1)%N then run_steps qstep (q_init (mkview init) q_empty) steps
+      else run_steps vstep c_empty steps
   end.
 
 Fixpoint mism_from {A} (f : A -> bool) (i : N) (l : list A) : list N :=
